@@ -569,6 +569,14 @@ def run(scn, prop=None):
                         (o == 'aexpect_eof' and res['out'] == 'ret' and child.closed and not was_closed):
                     if not child.terminated:
                         V('C09.unobserved', '%s completed but terminated is still False' % o, **det)
+                hit_eof = (o in ('expect_eof', 'read_all') and res['out'] == 'ret' and res.get('ret') == 0) or \
+                    (o in ('rnb', 'readline') and res['out'] == 'EOF')
+                if hit_eof and tr == 'pty' and not was_closed and proc.state in ('zombie', 'reaped') and not scn.get('exit_gap_us') \
+                        and not child.terminated and not out:
+                    # "observed it (through ... a read that hit EOF)": the child was dead and reapable when its end of stream was read
+                    w.probe('eof_read_with_dead_child')
+                    V('C09.unobserved', '%s hit EOF on a child that had terminated (kernel: %s), but terminated is still False and '
+                      'exitstatus/signalstatus are %r/%r' % (o, proc.state, child.exitstatus, child.signalstatus), **det)
             else:
                 if o in ('close', 'close_noforce', 'with_exc') and res['out'] == 'ret':
                     if getattr(main_of, 'open', False):
